@@ -270,7 +270,8 @@ class SqlalchemyRender:
                 col = col.label(alias)
         elif isinstance(t, ast.Parameter):
             col = sa.column(t.value, is_literal=True)
-            if t.alias: raise Exception()
+            if t.alias:
+                raise NotImplementedError('Alias for parameter is not supported')
         elif isinstance(t, ast.Tuple):
             col = [
                 self.to_expression(i)
@@ -339,6 +340,8 @@ class SqlalchemyRender:
             typename = 'BIGINT'
         if re.match('^FLOAT[\d]*$', typename):
             typename = 'FLOAT'
+        if typename not in self.types_map:
+            raise NotImplementedError(f'Unknown type: {typename}')
         type = self.types_map[typename]
         return type
 
@@ -403,7 +406,7 @@ class SqlalchemyRender:
 
         else:
             # TODO tests are failing
-            raise NotImplementedError(f'Table {node.__name__}')
+            raise NotImplementedError(f'Table {node.__class__.__name__}')
 
         return table
 
@@ -746,9 +749,12 @@ class SqlalchemyRender:
 
             return sql, params
 
-        except (SQLAlchemyError, NotImplementedError) as e:
+        except Exception as e:
             if not with_failback:
-                raise e
+                if isinstance(e, (SQLAlchemyError, NotImplementedError)):
+                    raise e
+                # unsupported shape of query: don't leak internal errors
+                raise NotImplementedError(f'Unable to render query: {type(e).__name__}: {e}') from e
 
             sql_query = str(ast_query)
             if self.dialect.name == 'postgresql':
